@@ -308,7 +308,9 @@ def run(ctx):
                    dtypes=("float64", "float32", "int64"))
         drive_grid(ctx, numpy.arange(0, 50), rng, "int-grid", dtypes=("float64", "int64"))
         drive_grid(ctx, numpy.arange(-20, 20, 2), rng, "int-grid-2", dtypes=("float64", "int64"))
-        drive_grid(ctx, decimal_bins("4.95", "0.1", 41), rng, "tol=1e-5", tol=1e-5)
+        for tol_ in (1e-5, 1e-9, 1e-3):
+            for s_, h_ in (("4.95", "0.1"), ("2.5", "0.05"), ("-125.4", "0.1"), ("0.1", "0.3")):
+                drive_grid(ctx, decimal_bins(s_, h_, 41), rng, "tol=%g:%s:%s" % (tol_, s_, h_), tol=tol_)
     # 5. shipped regions' lon/lat edges
     makers = ["nz_csep_region"] if not thorough else ["nz_csep_region", "nz_csep_collection_region",
                                                       "italy_csep_collection_region", "california_relm_collection_region"]
